@@ -286,3 +286,42 @@ void dom_p04(void) {
         emit_case(line);
     }
 }
+
+/* P17 (C17): one query whose script emits blocks and binary arrays: every element size, both byte orders, lengths 0..300,
+ * streamed header / data calls in every kind of split, over-length chunks, unfinished blocks */
+void dom_p17(void) {
+    unsigned long n = h_thorough ? 300000 : 30000; static char line[20000], script[16000];
+    for (; n; n--) {
+        size_t k = 0; unsigned ops = 1 + h_below(3), o;
+        for (o = 0; o < ops; o++) {
+            unsigned kind = h_below(10), len = h_chance(70) ? h_below(12) : h_below(301), i;
+            if (o) script[k++] = '/';
+            if (kind < 3) {                                       /* whole block */
+                k += (size_t) sprintf(script + k, "rK,"); if (!len) script[k++] = '-';
+                for (i = 0; i < len; i++) k += (size_t) sprintf(script + k, "%02x", h_below(256));
+            } else if (kind < 6) {                                /* array: size, format, elements */
+                unsigned sz = 1u << h_below(4), cnt = h_chance(15) ? 0 : 1 + h_below(h_chance(80) ? 6 : 37);
+                k += (size_t) sprintf(script + k, "rA,%u,%u,", sz, h_below(2)); if (!cnt) script[k++] = '-';
+                for (i = 0; i < cnt * sz; i++) k += (size_t) sprintf(script + k, "%02x", h_below(256));
+            } else if (kind < 9) {                                /* streamed: header then data chunks */
+                unsigned sent = 0, target = len, mode = h_below(5);   /* 0 exact, 1 short, 2 over-length chunk then rest, 3 zero-length chunks, 4 exact */
+                k += (size_t) sprintf(script + k, "rKH,%u", len);
+                if (mode == 1 && target) target = h_below(target);
+                while (sent < target) {
+                    unsigned c = 1 + h_below(target - sent), j;
+                    if (mode == 2 && h_chance(40)) { k += (size_t) sprintf(script + k, "/rKD,"); for (j = 0; j < (len - sent) + 1 + h_below(3); j++) k += (size_t) sprintf(script + k, "%02x", h_below(256)); mode = 0; }
+                    if (mode == 3 && h_chance(30)) k += (size_t) sprintf(script + k, "/rKD,-");
+                    k += (size_t) sprintf(script + k, "/rKD,"); for (j = 0; j < c; j++) k += (size_t) sprintf(script + k, "%02x", h_below(256));
+                    sent += c;
+                }
+                if (len == 0 && h_chance(70)) k += (size_t) sprintf(script + k, "/rKD,-");
+            } else k += (size_t) sprintf(script + k, "rI,32,1,%x,10", h_below(1000));
+            if (k > sizeof script - 2000) break;
+        }
+        script[k] = 0;
+        sprintf(line, "P 64 4 423f:1:%s 423f0a", script);
+        emit_case(line);
+    }
+    /* header-only calls for every power of ten up to 10^8 */
+    { unsigned p = 1; int i; for (i = 0; i <= 8; i++) { sprintf(line, "P 64 4 423f:1:rKH,%u 423f0a", p); emit_case(line); sprintf(line, "P 64 4 423f:1:rKH,%u 423f0a", p - 1 + (i == 0)); emit_case(line); p *= 10; } }
+}
